@@ -258,6 +258,10 @@ def main():
         tw = rng.choice([0.02, 0.08, 0.3, 1.0])
         fw = rng.choice([1.0, 0.3, 0.05])
         chooser = simmp.RandomChooser(rng.randrange(2 ** 31), timeout_weight=tw, feeder_weight=fw)
+        if si % 7 >= 5:
+            # priority-based schedules (a process parked at one point while the others run a long stretch)
+            tw, fw = "pct", "pct"
+            chooser = simmp.PCTChooser(rng.randrange(2 ** 31), depth=rng.choice([1, 2, 3, 4]), timeout_prob=rng.choice([0.3, 0.7]))
         if stage == "visit":
             case = rng.choice(cases + extra)
             sim, log, expect, desc = one(stage, par, chooser, case=case)
